@@ -1,5 +1,5 @@
 """C14 - downstream termination cancels upstream without waiting for it (DESIGN 6/C14)."""
-import vlib, parts_kernel, parts_multi, parts_pipeline as pp, common
+import vlib, parts_kernel, parts_resub, parts_multi, parts_pipeline as pp, common
 
 PID = 'C14'
 
@@ -16,6 +16,9 @@ def main(argv):
     # operator-level concurrent scenarios: sources whose teardown waits for their producer (a clean shutdown); when the stream has ended and every
     # thread is joined no source is left subscribed, and no teardown waits for a producer that is stuck inside the pipeline
     parts_kernel.trace_part(rep, PID, 400 if rep.tier == 'thorough' else 250, [rep.seed * 100 + 50 + i for i in range(4 if rep.tier == 'thorough' else 1)], extra=['-ops'], label='drive-ops')
+    # operators that WAIT inside Subscribe (Retry, RepeatWith, DoWhile, OnErrorResumeNextWith, Concat, SubscribeOn): an attempt that emits a value and
+    # never ends, cut by a downstream Take(1) - the waiting Subscribe call must return and the attempt must be released (Resub.tla NeverEnding)
+    parts_resub.run(rep, PID, rep.tier == 'thorough')
     # kernel level: teardowns (= cancellations of upstream subscriptions) registered while the subscription is being closed by another goroutine -
     # free-running with yield hooks and schedule replay (one preemption at every hook point)
     parts_kernel.trace_part(rep, PID, 400 if rep.tier == 'thorough' else 200, [rep.seed * 100 + i for i in range(4 if rep.tier == 'thorough' else 1)])
@@ -31,6 +34,8 @@ def replay(path):
     if path.endswith('.ndjson'):
         return parts_kernel.replay_trace(PID, path)
     import json
+    if json.load(open(path))['replay'].get('module') == 'ResubGen':
+        return parts_resub.replay_case(PID, path)
     if json.load(open(path))['replay'].get('module') in ('MultiGen', 'HOGen', 'MultiOddGen'):
         return parts_multi.replay_case(PID, path)
     return pp.replay_case(PID, path)
